@@ -66,7 +66,11 @@ func Run(c *vh.Ctx) {
 		case "ty":
 			var t TyCase
 			json.Unmarshal(c.ReplayRaw, &t)
-			runTypes(c, m, t.Tag, &t)
+			if isCompatBoundary(t.Boundary) {
+				runParamCompat(c, m, t.Tag, &t)
+			} else {
+				runTypes(c, m, t.Tag, &t)
+			}
 		case "hist":
 			var h HistCase
 			json.Unmarshal(c.ReplayRaw, &h)
@@ -90,7 +94,10 @@ func Run(c *vh.Ctx) {
 	for _, sh := range shs {
 		runAccess(c, m, sh, "", false)
 	}
-	runTypes(c, m, "Q"+string(rune('a'+c.Rand.Intn(26))), nil)
+	tyTag := "Q" + string(rune('a'+c.Rand.Intn(26)))
+	runTypes(c, m, tyTag, nil)
+	// what the exact parameter boundaries must keep accepting: `T $x = null`, omitted arguments, untyped, mixed
+	runParamCompat(c, m, tyTag+"c", nil)
 	runInst(c, m, "N"+string(rune('a'+c.Rand.Intn(26))), nil)
 	// enforcement is history-independent: every enforcement point probed repeatedly within one VM
 	for _, sh := range shs {
